@@ -1,4 +1,6 @@
 import MQ.Inv.EpochMain
+import MQ.Inv.GrpFree
+import MQ.Inv.PosFree
 /-!
 # C16 — deferred reclamation of internal bookkeeping is memory safe
 
@@ -93,5 +95,34 @@ theorem C16_release_sites (σ : St) (t inp : Nat)
 example : SafeRun (init 2 true .busy false) [] (init 2 true .busy false) ∧
     (init 2 true .busy false).groups (init 2 true .busy false).cur = [0] :=
   ⟨SafeRun.nil _, by simp [init, upd]⟩
+
+/-! ### nothing is released twice (stream lists and position blocks) -/
+
+/-- C16 (no double release of a stream list): in every execution in which the two manager mutexes are mutual
+exclusion, every stream list (`ReaderGroup`) occurs at most once in the retirement pipeline — waiting, pending or
+released — and therefore is released at most once. (The list is passed to `free` by the thread whose CAS replaced
+it; the id of the current list only grows.) -/
+theorem C16_stream_list_released_once_partial (N : Nat) (bcast : Bool) (wait : WaitK) (fut : Bool)
+    (ls : List Label) (σ : St) (r : LockRun (init N bcast wait fut) ls σ) (c : Nat) :
+    σ.freed.count (Obj.grp c) ≤ 1 ∧ σ.mgr.pipe.count (Obj.grp c) ≤ 1 := by
+  obtain ⟨g, _, _⟩ := ginv_lockRun r (ginv_init N bcast wait fut) (mgi_init N bcast wait fut) (reginv_init N bcast wait fut)
+  exact ⟨freed_group_once g c, g.once c⟩
+
+/-- C16 (no double release of a position block): along every `SafeRun` the position block of a stream occurs at
+most once in the retirement pipeline, hence is released at most once. (It is passed to `free` by the thread whose
+CAS took the stream off the list; that CAS is only made for a stream that is on the list, and a stream whose block
+is owed or in the pipeline is not on the list any more.) -/
+theorem C16_position_block_released_once_partial (N : Nat) (bcast : Bool) (wait : WaitK) (fut : Bool)
+    (ls : List Label) (σ : St) (r : SafeRun (init N bcast wait fut) ls σ) (s : Nat) :
+    σ.freed.count (Obj.posO s) ≤ 1 ∧ σ.mgr.pipe.count (Obj.posO s) ≤ 1 := by
+  obtain ⟨p, _⟩ := pinv_safeRun r (pinv_init N bcast wait fut) (allInv_init N bcast wait fut)
+  exact ⟨freed_once p.o _ trivial, p.o.once _ trivial⟩
+
+/-- C16: every `free` call is given the object its place in the program stands for (the old list after a list
+CAS, the position block after the list of a removed stream, the token at the end of a drop) -/
+theorem C16_free_is_given_the_right_object_partial (N : Nat) (bcast : Bool) (wait : WaitK) (fut : Bool)
+    (ls : List Label) (σ : St) (r : SafeRun (init N bcast wait fut) ls σ) (t : Nat) (k : MK) (ob : Obj)
+    (h : (σ.th t).pc = .f1 k ob) : shapeOK k ob (σ.th t).s :=
+  (pinv_safeRun r (pinv_init N bcast wait fut) (allInv_init N bcast wait fut)).1.shape t k ob h
 
 end MQ
